@@ -8,6 +8,6 @@ CONSTANTS
   AllSentinelOrders = FALSE
   T = 1
 SPECIFICATION Spec
-INVARIANTS StrandSymmetry ExtensionLemma FwdInv BwdInv Final MemsFastLemma
+INVARIANTS StrandSymmetry ExtensionLemma FwdInv BwdInv Final MemsFastLemma BigMinLenLemma
 PROPERTY Progress
 CHECK_DEADLOCK FALSE
